@@ -215,20 +215,18 @@ def less (byFee : Bool) (a b : Item) : Bool :=
   else
     if a.prio = b.prio then decide (a.feePerKB > b.feePerKB) else decide (a.prio > b.prio)
 
-def swap (q : Array Item) (i j : Nat) : Array Item :=
-  if h : i < q.size ∧ j < q.size then
-    let a := q[i]'h.1
-    let b := q[j]'h.2
-    (q.set! i b).set! j a
-  else q
+def swap (q : List Item) (i j : Nat) : List Item :=
+  match q[i]?, q[j]? with
+  | some a, some b => (q.set i b).set j a
+  | _, _ => q
 
-def lessAt (byFee : Bool) (q : Array Item) (i j : Nat) : Bool :=
+def lessAt (byFee : Bool) (q : List Item) (i j : Nat) : Bool :=
   match q[i]?, q[j]? with
   | some a, some b => less byFee a b
   | _, _ => false
 
 /-- `heap.up`. -/
-def heapUp (byFee : Bool) : Nat → Array Item → Nat → Array Item
+def heapUp (byFee : Bool) : Nat → List Item → Nat → List Item
   | 0, q, _ => q
   | fuel + 1, q, j =>
     let i := (j - 1) / 2
@@ -236,7 +234,7 @@ def heapUp (byFee : Bool) : Nat → Array Item → Nat → Array Item
     else heapUp byFee fuel (swap q i j) i
 
 /-- `heap.down` over the first `n` elements. -/
-def heapDown (byFee : Bool) : Nat → Array Item → Nat → Nat → Array Item
+def heapDown (byFee : Bool) : Nat → List Item → Nat → Nat → List Item
   | 0, q, _, _ => q
   | fuel + 1, q, i, n =>
     let j1 := 2 * i + 1
@@ -247,24 +245,25 @@ def heapDown (byFee : Bool) : Nat → Array Item → Nat → Nat → Array Item
       else heapDown byFee fuel (swap q i j) j n
 
 /-- `heap.Init`. -/
-def heapInit (byFee : Bool) (q : Array Item) : Array Item :=
-  let n := q.size
+def heapInit (byFee : Bool) (q : List Item) : List Item :=
+  let n := q.length
   (List.range (n / 2)).reverse.foldl (fun q i => heapDown byFee (n + 1) q i n) q
 
 /-- `heap.Push`. -/
-def heapPush (byFee : Bool) (q : Array Item) (x : Item) : Array Item :=
-  let q := q.push x
-  heapUp byFee (q.size + 1) q (q.size - 1)
+def heapPush (byFee : Bool) (q : List Item) (x : Item) : List Item :=
+  let q := q ++ [x]
+  heapUp byFee (q.length + 1) q (q.length - 1)
 
-/-- `heap.Pop`. -/
-def heapPop (byFee : Bool) (q : Array Item) : Option (Item × Array Item) :=
-  if q.size = 0 then none
+/-- `heap.Pop`: swap the root with the last element, sift the new root down over the first `n-1`
+elements, remove the last element. -/
+def heapPop (byFee : Bool) (q : List Item) : Option (Item × List Item) :=
+  if q.length = 0 then none
   else
-    let n := q.size - 1
+    let n := q.length - 1
     let q := swap q 0 n
     let q := heapDown byFee (n + 1) q 0 n
-    match q.back? with
-    | some x => some (x, q.pop)
+    match q.getLast? with
+    | some x => some (x, q.dropLast)
     | none => none
 
 /-- The queue operations the selection loop uses.  The property theorems hold for EVERY such
@@ -276,8 +275,8 @@ structure QueueOps (Q : Type) where
   pop : Bool → Q → Option (Item × Q)
   reinit : Bool → Q → Q
 
-def heapOps : QueueOps (Array Item) where
-  empty := #[]
+def heapOps : QueueOps (List Item) where
+  empty := []
   push := heapPush
   pop := heapPop
   reinit := heapInit
